@@ -50,13 +50,15 @@ def check(ctx):
     cases, beh_of = [], []
     for cx in ("single", "nested", "sibling"):
         for b in behs:
+            if b["sh"]["extra"] in ("skiptest", "innerexit") and cx != "single":
+                continue
             k = (cx, loopgen.shape_key(b["sh"]))
             if k not in idx:
                 idx[k] = len(items)
                 items.append((b["sh"], cx, None))
             cases.append({"fn": idx[k], "a": b["a"], "n": b["n"]})
             beh_of.append((b, cx))
-    for b in rng.sample(behs, min(nconst, len(behs))):
+    for b in rng.sample([x for x in behs if x["sh"]["extra"] not in ("skiptest", "innerexit")], min(nconst, len(behs))):
         cases.append({"fn": len(items), "a": b["a"], "n": b["n"]})
         items.append((b["sh"], "const", (b["a"], b["n"])))
         beh_of.append((b, "const"))
@@ -104,7 +106,7 @@ def check(ctx):
     nclaims = ntrips = 0
     for (b, cx), c, case in zip(beh_of, claims, cases):
         mine = [] if c.get("missing") else [L for L in c["loops"] if "i" in (L.get("phis") or [])]
-        if len(mine) != 1 or len(c["loops"]) != (2 if cx in ("nested", "sibling") else 1):
+        if len(mine) != 1 or len(c["loops"]) != (2 if cx in ("nested", "sibling") or b["sh"]["extra"] == "innerexit" else 1):
             raise vlib.Inconclusive("analysis did not find the generated loop(s) in %s (%s): %s" % (c.get("fn"), cx, json.dumps(c)[:300]))
         L = mine[0]
         ivs = []
@@ -116,7 +118,8 @@ def check(ctx):
         tk = L["trip"] is not None
         ntrips += tk
         evs.append({"ev": "loop", "fn": c["fn"], "item": case["fn"], "ctx": cx, "sh": b["sh"], "a": b["a"], "n": b["n"], "width": b["sh"]["width"],
-                    "hdr": b["hdr"], "iters": b["iters"], "ivs": ivs, "trip": L["trip"] if tk else 0, "tripknown": tk,
+                    "hdr": b["hdr"], "iters": b["iters"],
+                    "iters_ok": sorted({b["iters"]} | ({len(b["hdr"]) - 1} if b["sh"]["extra"] == "skiptest" else set())), "ivs": ivs, "trip": L["trip"] if tk else 0, "tripknown": tk,
                     "trip_text": L["trip_s"]})
     ctx.notes["iv_claims_checked"] = nclaims
     ctx.notes["trip_claims_checked"] = ntrips
@@ -135,7 +138,7 @@ def check(ctx):
         for fi in fails:
             e = live[fi - 1]
             sh = e["sh"]
-            what = "trip" if (e["tripknown"] and e["trip"] != e["iters"]) else "iv"
+            what = "trip" if (e["tripknown"] and e["trip"] not in e["iters_ok"]) else "iv"
             seq = [h["i"] for h in e["hdr"]]
             wrapped = any(abs(y - x) != abs(sh["step"]) for x, y in zip(seq, seq[1:]))
             sig = "C12:%s:ctx=%s:pos=%s:stay=%s:cmp=%s:ivLeft=%s:extra=%s:width=%d:stepsign=%s:wrap=%s" % (
@@ -160,6 +163,7 @@ def check(ctx):
     ctx.sample({"claim": {k: good[k] for k in ("sh", "a", "n", "iters", "ivs", "trip", "trip_text")}, "hdr_i": [h["i"] for h in good["hdr"]]})
     c = json.loads(json.dumps(good))
     c["iters"] += 1
+    c["iters_ok"] = [x + 1 for x in c["iters_ok"]]
     cp = os.path.join(ctx.scratch, "canary.ndjson")
     vlib.write_ndjson(cp, [c])
     okc, _, _, _ = ctx.validate_trace(LANG, "LoopContract", "LoopContract.cfg", cp)
